@@ -46,25 +46,38 @@ open scoped InnerProductSpace
 theorem os_sites_agree (os : Rat) (n : Int) :
     Gen.apodOsLen os n = Gen.oversampLen os n ∧
     Gen.scaleFactor os n = ((Gen.oversampLen os n : Int) : Rat) / (n : Rat) ∧
-    Gen.scaleShift os n = pyDiv (Gen.oversampLen os n) 2 := ⟨rfl, rfl, rfl⟩
+    Gen.scaleShift os n = pyDiv (Gen.oversampLen os n) 2 := by
+  -- `rfl` for the source as written; robust to commuting the product inside `ceil` at any of the sites
+  refine ⟨?_, ?_, ?_⟩ <;>
+    first
+      | rfl
+      | simp only [Gen.apodOsLen, Gen.oversampLen, Gen.scaleFactor, Gen.scaleShift, mul_comm]
 
 /-- for `oversamp ≥ 1` the oversampled grid is at least as long as the image: `util.resize` pads, never crops -/
 theorem oversampLen_ge (os : Rat) (n : Int) (hos : 1 ≤ os) (hn : 0 ≤ n) : n ≤ Gen.oversampLen os n := by
   unfold Gen.oversampLen
-  have h1 : ((n : Int) : Rat) ≤ os * ((n : Int) : Rat) := by
-    have : (0 : Rat) ≤ (n : Rat) := by exact_mod_cast hn
-    nlinarith
-  have h2 : os * ((n : Int) : Rat) ≤ ((Rat.ceil (os * ((n : Int) : Rat)) : Int) : Rat) := Rat.le_ceil
-  have : ((n : Int) : Rat) ≤ ((Rat.ceil (os * ((n : Int) : Rat)) : Int) : Rat) := le_trans h1 h2
-  exact_mod_cast this
+  -- stated for any expression equal to `os · n` (robust to an algebraically equal spelling of the product)
+  have key : ∀ q : Rat, q = os * ((n : Int) : Rat) → n ≤ Rat.ceil q := by
+    intro q hq
+    have h1 : ((n : Int) : Rat) ≤ q := by
+      have : (0 : Rat) ≤ (n : Rat) := by exact_mod_cast hn
+      rw [hq]; nlinarith
+    have h2 : q ≤ ((Rat.ceil q : Int) : Rat) := Rat.le_ceil
+    have : ((n : Int) : Rat) ≤ ((Rat.ceil q : Int) : Rat) := le_trans h1 h2
+    exact_mod_cast this
+  exact key _ (by ring)
 
 -- N = 9, oversamp = 1.25: osN = ceil(11.25) = 12
 example : Gen.oversampLen (5 / 4) 9 = 12 := by
   unfold Gen.oversampLen
-  apply le_antisymm
-  · rw [Rat.ceil_le_iff]; norm_num
-  · have : (11 : Int) < Rat.ceil ((5 / 4 : Rat) * ((9 : Int) : Rat)) := by rw [Rat.lt_ceil_iff]; norm_num
-    omega
+  have key : ∀ q : Rat, q = 45 / 4 → Rat.ceil q = 12 := by
+    intro q hq
+    subst hq
+    apply le_antisymm
+    · rw [Rat.ceil_le_iff]; norm_num
+    · have : (11 : Int) < Rat.ceil (45 / 4 : Rat) := by rw [Rat.lt_ceil_iff]; norm_num
+      omega
+  exact key _ (by norm_num)
 
 /-! ### periodicity -/
 
@@ -73,7 +86,8 @@ example : Gen.oversampLen (5 / 4) 9 = 12 := by
 theorem scaleCoord_period (os : Rat) (n : Int) (hn : n ≠ 0) (c : Rat) (m : Int) :
     Gen.scaleCoord os n (c + ((m * n : Int) : Rat)) =
       Gen.scaleCoord os n c + ((m * Gen.oversampLen os n : Int) : Rat) := by
-  unfold Gen.scaleCoord Gen.scaleFactor Gen.oversampLen
+  unfold Gen.scaleCoord
+  rw [(os_sites_agree os n).2.1]
   have : ((n : Int) : Rat) ≠ 0 := by exact_mod_cast hn
   push_cast
   field_simp
@@ -144,8 +158,8 @@ theorem grid_centre_consistency (os : Rat) (N k j : Int) :
         (Gen.resizeOshiftDefault N (Gen.oversampLen os N)) k = some j ↔
       (0 ≤ k ∧ k < Gen.oversampLen os N ∧ 0 ≤ j ∧ j < N ∧
         j - Gen.apodCentre N = k - Gen.scaleShift os N) := by
-  rw [C09.resize_default_aligns]
-  unfold Gen.apodCentre Gen.scaleShift Gen.oversampLen
+  rw [C09.resize_default_aligns, (os_sites_agree os N).2.2]
+  unfold Gen.apodCentre
   simp only [pyDiv_of_pos _ (show (0 : Int) < 2 by decide)]
 
 /-- the crop of `nufft_adjoint` uses the same alignment (it is the transposed relation) -/
@@ -154,8 +168,8 @@ theorem crop_centre_consistency (os : Rat) (N k j : Int) :
         (Gen.resizeOshiftDefault (Gen.oversampLen os N) N) j = some k ↔
       (0 ≤ k ∧ k < Gen.oversampLen os N ∧ 0 ≤ j ∧ j < N ∧
         j - Gen.apodCentre N = k - Gen.scaleShift os N) := by
-  rw [C09.resize_default_aligns]
-  unfold Gen.apodCentre Gen.scaleShift Gen.oversampLen
+  rw [C09.resize_default_aligns, (os_sites_agree os N).2.2]
+  unfold Gen.apodCentre
   simp only [pyDiv_of_pos _ (show (0 : Int) < 2 by decide)]
   constructor <;> rintro ⟨h1, h2, h3, h4, h5⟩ <;> exact ⟨h3, h4, h1, h2, by omega⟩
 
